@@ -185,6 +185,30 @@ func plantRaw(dbPath, kind, id, raw string) error {
 	})
 }
 
+// rawGet reads an entry's bytes directly from the database file
+func rawGet(dbPath, kind, id string) (raw string, present bool, err error) {
+	db, err := bolt.Open(dbPath, 0600, &bolt.Options{Timeout: 10 * time.Second, ReadOnly: true})
+	if err != nil {
+		return "", false, err
+	}
+	defer db.Close()
+	bucket := persistence.BucketFans
+	if kind == "map" {
+		bucket = persistence.BucketFanPwmMap
+	}
+	err = db.View(func(tx *bolt.Tx) error {
+		b := tx.Bucket([]byte(bucket))
+		if b == nil {
+			return nil
+		}
+		if v := b.Get([]byte(id)); v != nil {
+			raw, present = string(v), true
+		}
+		return nil
+	})
+	return raw, present, err
+}
+
 func c14Sequential(ctx *Ctx) {
 	r := ctx.Rng
 	dbPath := ctx.Path(uniqueId("c14") + ".db")
@@ -271,6 +295,12 @@ func c14Sequential(ctx *Ctx) {
 			// the first load of an undecodable entry discards it; whatever it returned, later loads must say not found
 			if got[corruptKey] != absent {
 				ctx.Count("corrupt_first_load_returned_data_without_error", 1)
+			}
+			// "an undecodable entry is discarded": after the load that met it, the bytes are gone from the file
+			if raw, present, rerr := rawGet(dbPath, op.Kind, op.Id); rerr == nil && present {
+				fail("corrupt-entry-not-discarded:still-in-the-file:"+op.Kind, fmt.Sprintf("planted %q, after a load the file still holds %q", op.Raw, raw))
+				ctx.Abort = true // such loads may each wait for the database lock timeout
+				return
 			}
 			got2, pmsg := loadAll(p, ids)
 			if pmsg != "" {
@@ -363,7 +393,7 @@ func selfExe() string {
 }
 
 func c14RunDump(dbPath string) (map[string]string, string) {
-	out, err := exec.Command(selfExe(), "C14", "--mode", "dump", "--arg", dbPath+"|x").CombinedOutput()
+	out, err := exec.Command(selfExe(), "C14", "--mode", "dump", "--scratch", filepath.Dir(dbPath), "--arg", dbPath+"|x").CombinedOutput()
 	for _, l := range strings.Split(string(out), "\n") {
 		if strings.HasPrefix(l, "DUMP ") {
 			m := map[string]string{}
@@ -426,7 +456,7 @@ func c14Crash(ctx *Ctx) {
 		script := filepath.Join(dir, "ops.json")
 		_ = os.WriteFile(prepScript, []byte(jsonStr(prep)), 0644)
 		_ = os.WriteFile(script, []byte(jsonStr(ops)), 0644)
-		if out, err := exec.Command(selfExe(), "C14", "--mode", "worker", "--arg", base+"|"+prepScript+"|"+filepath.Join(dir, "prep.log")).CombinedOutput(); err != nil {
+		if out, err := exec.Command(selfExe(), "C14", "--mode", "worker", "--scratch", dir, "--arg", base+"|"+prepScript+"|"+filepath.Join(dir, "prep.log")).CombinedOutput(); err != nil {
 			ctx.Inconclusive("prep worker failed: " + trunc(string(out)))
 			return
 		}
@@ -447,7 +477,7 @@ func c14Crash(ctx *Ctx) {
 			if inject != "" {
 				args = append(args, "-e", "inject="+inject)
 			}
-			args = append(args, selfExe(), "C14", "--mode", "worker", "--arg", db+"|"+script+"|"+logPath)
+			args = append(args, selfExe(), "C14", "--mode", "worker", "--scratch", dir, "--arg", db+"|"+script+"|"+logPath)
 			cmd := exec.Command("strace", args...)
 			if killAfter > 0 {
 				cmd.SysProcAttr = &syscall.SysProcAttr{Setpgid: true}
@@ -730,7 +760,7 @@ func c14Lin(ctx *Ctx) {
 			}
 			go func(c int, kill bool, delay time.Duration) {
 				defer wg.Done()
-				cmd := exec.Command(selfExe(), "C14", "--mode", "linproc", "--seed", strconv.FormatInt(ctx.Seed+int64(round), 10), "--arg",
+				cmd := exec.Command(selfExe(), "C14", "--mode", "linproc", "--scratch", ctx.Scratch, "--seed", strconv.FormatInt(ctx.Seed+int64(round), 10), "--arg",
 					fmt.Sprintf("%s|%d|%d|%s", dbPath, 100+c, opsPer, strings.Join(keys, ",")))
 				stdout, _ := cmd.StdoutPipe()
 				if err := cmd.Start(); err != nil {
@@ -834,7 +864,7 @@ func init() {
 			c14Lin(ctx)
 		default:
 			n := ctx.N(1200, 30000)
-			for i := 0; i < n; i++ {
+			for i := 0; i < n && !ctx.Abort; i++ {
 				c14Sequential(ctx)
 			}
 		}
